@@ -13,7 +13,7 @@ import json
 import os
 import re
 
-from .. import core
+from .. import core, sxeval
 from ..core import AnalysisBroken, sx_walk, sx_str
 from ..engines import diag, guard
 from .C13 import LINK, _exprs
@@ -449,6 +449,61 @@ def delete_data_rule(rep, rid="C14.g"):
                "src/xercesc/dom/impl/DOMCharacterDataImpl.cpp:%s" % el.get("l", 0))
 
 
+def boundary_compare_rule(rep):
+    rep.rule("C14.h", "compareBoundaryPoints orders two boundary points as DOM Range defines (DOMRangeImpl::compareBoundaryPoints, the "
+             "three offset-deciding cases evaluated for every small offset/index combination): same container — the sign of "
+             "offsetA - offsetB; a child C of A's container holds B — A is before B exactly when offsetA <= index(C); a child C of "
+             "B's container holds A — A is before B exactly when index(C) < offsetB. The strictness of the two mixed cases differs "
+             "and is what places a point directly in front of the child correctly")
+    g = core.run_xa([os.path.join(core.REPO, "src/xercesc/dom/impl/DOMRangeImpl.cpp")], st=r"^DOMRangeImpl::compareBoundaryPoints$", flat=False)
+    body = g.st("DOMRangeImpl::compareBoundaryPoints")["body"]
+    where = "src/xercesc/dom/impl/DOMRangeImpl.cpp"
+    cases = []
+
+    def walk(n):
+        if isinstance(n, list) and n and n[0] == "if" and isinstance(n[1], list):
+            c = n[1]
+            if c[0] == "b" and c[1] == "==" and sorted([c[2], c[3]]) == [["l", "pointA"], ["l", "pointB"]]:
+                cases.append(("same-container", n[2], n[-1]))
+            elif c[0] == "c" and c[1].endswith("::isAncestorOf") and len(c[3]) == 2 and c[3][1] in (["l", "pointA"], ["l", "pointB"]):
+                cases.append(("child-of-A-holds-B" if c[3][1][1] == "pointB" else "child-of-B-holds-A", n[2], n[-1]))
+        if isinstance(n, list):
+            for k in n:
+                walk(k)
+    walk(body)
+    want = {"same-container": lambda a, b, i: (a > b) - (a < b),
+            "child-of-A-holds-B": lambda a, b, i: -1 if a <= i else 1,
+            "child-of-B-holds-A": lambda a, b, i: -1 if i < b else 1}
+    seen = set()
+    for name, blk, line in cases:
+        seen.add(name)
+        bad = []
+        for a in range(4):
+            for b in range(4):
+                for i in range(3):
+                    def call(x, env, i=i):
+                        if x[1].endswith("::indexOf"):
+                            return i
+                        raise sxeval.Unmodelled("call of %s in a boundary-point case" % x[1])
+                    try:
+                        got = sxeval.run_st(blk, {"offsetA": a, "offsetB": b, "__call__": call})
+                    except sxeval.Unmodelled as e:
+                        if "falls off" in str(e):
+                            got = None
+                        else:
+                            raise
+                    exp = want[name](a, b, i)
+                    if got != exp:
+                        bad.append("offsetA=%d offsetB=%d index=%d: %s, DOM Range says %d" % (a, b, i, "no result" if got is None else got, exp))
+                    if name == "same-container":
+                        break
+        rep.ob("C14.h", "compareBoundaryPoints/%s" % name, not bad, "every combination of offsets 0..3 and child index 0..2 agrees with DOM Range" if not bad else
+               "compareBoundaryPoints, case '%s' (line %s): %s%s" % (name, line, "; ".join(bad[:3]), " (+%d more)" % (len(bad) - 3) if len(bad) > 3 else ""),
+               "%s:%s" % (where, line))
+    if len(seen) < 3:
+        raise AnalysisBroken("compareBoundaryPoints: cases no longer recognised (%s of 3)" % sorted(seen))
+
+
 def run(rep):
     f = core.library_facts()
     rep.units.update(os.path.relpath(t, core.REPO) for t in f.tus)
@@ -459,6 +514,7 @@ def run(rep):
     symmetry_rule(rep)
     tombstone_rule(rep, f)
     delete_data_rule(rep)
+    boundary_compare_rule(rep)
     diag.run(rep, f, "C14")
     from ..engines import dispatch
     dispatch.run(rep, f, "C14")
